@@ -67,7 +67,7 @@ THEOREM = {
 PARTIAL = {'matches': 'hand model compares exactly, the code with np.allclose: only `exact match => code match` and the '
                       'order/periodicity refusal are proved'}
 # corollaries audited together with the main theorems
-EXTRA_THEOREMS = ('PyBasis_insert_knot_eq_sorted',)
+EXTRA_THEOREMS = ('PyBasis_insert_knot_eq_sorted', 'PyBasis_init_eq_full')
 # translated for completeness, no hand model to compare with: obligation = translates and elaborates
 TRANSLATION_ONLY = ('init_default', 'greville_at')
 
@@ -272,8 +272,8 @@ def _run(src, lean_dir):
                 failed[key] = 'theorem %s not found in the built module' % thm
             elif not set(ax) <= ALLOWED_AXIOMS:
                 failed[key] = 'theorem %s uses axioms %s' % (thm, ','.join(sorted(set(ax) - ALLOWED_AXIOMS)))
-            elif key == 'insert_knot':
-                for ex in EXTRA_THEOREMS:
+            elif key in ('insert_knot', '__init__'):
+                for ex in EXTRA_THEOREMS[:1] if key == 'insert_knot' else EXTRA_THEOREMS[1:]:
                     axx = axioms.get(ex)
                     if axx is None or not set(axx) <= ALLOWED_AXIOMS:
                         failed[key] = 'corollary %s did not check or uses other axioms (%r)' % (ex, axx)
